@@ -9,7 +9,6 @@ import (
 
 const (
 	idOrSubMatchLen = 2
-	endRPCSplitLen  = 2
 )
 
 func getID(match [][]byte) int {
@@ -44,53 +43,51 @@ func (d *Driver) read() {
 
 		b = append(b, rb...)
 
-		if d.Channel.PromptPattern.Match(b) { //nolint: nestif
-			if bytes.Contains(b, []byte("</rpc>")) {
-				// we read past the input, yay this is good, but we don't care that much, we just
-				// need to reset the buffer... *but* because there is a small read delay in channel
-				// we can sometimes already have read past the prompt/end of the original rpc. This
-				// isn't an issue in "normal" SSH operations where we don't send return until we
-				// read the input off the session, but obviously can break things here, so we'll
-				// use regex to split on the delim and then get only the bits after the delim and
-				// update b to be just that part.
-				var ss []string
+		// the buffer may hold more than one complete message (i.e. the echo of our own input
+		// followed by a reply, or a late reply followed by the next one), and/or the start of a
+		// message that is still being received. only ever look at the *first* complete message,
+		// keep whatever follows it, and repeat until no complete message is left.
+		for {
+			loc := d.Channel.PromptPattern.FindIndex(b)
+			if loc == nil {
+				break
+			}
 
-				switch d.SelectedVersion {
-				case V1Dot0:
-					ss = patterns.v1Dot0Delim.Split(string(b), endRPCSplitLen)
-				case V1Dot1:
-					ss = patterns.v1Dot1Delim.Split(string(b), endRPCSplitLen)
-				}
+			m := make([]byte, loc[1])
+			copy(m, b[:loc[1]])
 
-				b = []byte(ss[1])
-			} else if d.Channel.PromptPattern.Match(b) {
-				var messageID int
+			b = b[loc[1]:]
 
-				var subID int
+			if bytes.Contains(m, []byte("</rpc>")) {
+				// we read past the (echo of the) input, yay this is good, but we don't care that
+				// much, we just drop it.
+				continue
+			}
 
-				messageID = getID(patterns.messageID.FindSubmatch(b))
+			var messageID int
 
-				if bytes.Contains(b, []byte("</subscription-id>")) {
-					subID = getID(patterns.subscriptionID.FindSubmatch(b))
-				}
+			var subID int
 
-				if messageID != 0 {
-					d.Logger.Debugf(
-						"Received message response for message ID '%d', storing", messageID,
-					)
+			messageID = getID(patterns.messageID.FindSubmatch(m))
 
-					d.storeMessage(messageID, b)
-				}
+			if bytes.Contains(m, []byte("</subscription-id>")) {
+				subID = getID(patterns.subscriptionID.FindSubmatch(m))
+			}
 
-				if subID != 0 {
-					d.Logger.Debugf(
-						"Received message response for subscription ID '%d', storing", subID,
-					)
+			if messageID != 0 {
+				d.Logger.Debugf(
+					"Received message response for message ID '%d', storing", messageID,
+				)
 
-					d.storeSubscriptionMessage(subID, b)
-				}
+				d.storeMessage(messageID, m)
+			}
 
-				b = nil
+			if subID != 0 {
+				d.Logger.Debugf(
+					"Received message response for subscription ID '%d', storing", subID,
+				)
+
+				d.storeSubscriptionMessage(subID, m)
 			}
 		}
 
